@@ -265,8 +265,139 @@ def run_threads(case):
     return out
 
 
+def run_lookup(case):
+    """case["lookup"]: the interception as the CURRENT version of a service declares it (alias, optional
+    alias_params_resolver, fallback_aliases as a list or a function) next to older versions of the same input, one per
+    fallback alias (plain alias, same capture selection).  One operation is recorded whose calls (lookup["calls"]; call 0
+    = the case's own arguments) are made through the version lookup["rec"] says ([version, call] per entry; version 0 =
+    current, k = the one named fallbacks[k-1]); entry n returns "R<n>".  Then the recording is played with the current
+    version making every call once.  Reported per entry: the input key it added to the recording; per call: the keys the
+    current version looked up (main alias first, then the fallback aliases; None = key creation failed), the keys the key
+    builder gives the same call under each of those aliases, what the call received, live executions."""
+    from playback.tape_cassettes.in_memory.in_memory_tape_cassette import InMemoryTapeCassette
+    from playback.exceptions import RecordingKeyError, InputInterceptionKeyCreationError
+    lk = case["lookup"]
+    alias, cap, static = case["alias"], cap_of(case["cap"]), case["static"]
+    fbs = list(lk["fallbacks"])
+    calls = [[case["args"], case["kwargs"]]] + [list(c) for c in lk.get("calls", [])]
+    off = 0 if static else 1
+    resolver = None
+    if lk.get("resolver") is not None:
+        ri = lk["resolver"]
+
+        def resolver(*a, **k):
+            v = a[ri + off]
+            if not isinstance(v, str):
+                raise TypeError("resolver wants a str")
+            return {"p": v}
+    fb_arg = fbs if lk.get("fb_kind", "list") == "list" else (lambda *a, **k: list(fbs))
+
+    cas = InMemoryTapeCassette()
+    rec = TapeRecorder(cas)
+    rec.enable_recording()
+    live = []
+    cur = {"ret": None}
+    holder = {}
+    orig_create = cas.create_new_recording
+
+    def spy_create(category):
+        holder["recording"] = orig_create(category)
+        return holder["recording"]
+    cas.create_new_recording = spy_create
+    saved = []
+    orig_save = cas._save_recording
+
+    def spy_save(recording):
+        saved.append(recording.id)
+        return orig_save(recording)
+    cas._save_recording = spy_save
+
+    def the_body():
+        live.append(1)
+        return cur["ret"]
+
+    def version(al, **opts):
+        class Svc(object):
+            if static:
+                @staticmethod
+                @rec.static_intercept_input(al, capture_args=cap, **opts)
+                def f(*a, **k):
+                    return the_body()
+            else:
+                @rec.intercept_input(al, capture_args=cap, **opts)
+                def f(self, *a, **k):
+                    return the_body()
+        return Svc
+    versions = [version(alias, alias_params_resolver=resolver, fallback_aliases=fb_arg)] + [version(fa) for fa in fbs]
+
+    def call(vi, ci):
+        a = [to_py(x) for x in calls[ci][0]]
+        k = {n: to_py(v) for n, v in calls[ci][1]}
+        svc = versions[vi]
+        if static:
+            return svc.f(*a, **k)
+        return svc().f(*a[1:], **k)
+
+    entries = []
+
+    class Op(object):
+        @rec.operation()
+        def execute(self):
+            for n, (vi, ci) in enumerate(lk["rec"]):
+                before = set(holder["recording"].get_all_keys())
+                cur["ret"] = "R%d" % n
+                call(vi, ci)
+                new = sorted(k for k in holder["recording"].get_all_keys() if k not in before and k.startswith('input:'))
+                entries.append(new[0] if len(new) == 1 else None if not new else new)
+
+    Op().execute()
+    out = {"saved": bool(saved), "entries": entries}
+    if not saved:
+        return out
+    # the keys the key builder gives each call under each alias (formatted main alias first)
+    want = []
+    for a_j, kw_j in calls:
+        a = [to_py(x) for x in a_j]
+        k = {n: to_py(v) for n, v in kw_j}
+        try:
+            main = TapeRecorder._format_alias(alias, resolver, *a, **k)
+            want.append([TapeRecorder._input_interception_key(al, cap, static, *a, **k) for al in [main] + fbs])
+        except Exception as ex:     # noqa
+            want.append(None)
+    out["want_keys"] = want
+    looked = []
+    orig_lookup = rec._playback_recorded_interception
+
+    def spy_lookup(possible_keys, *a, **k):
+        looked.append(list(possible_keys))
+        return orig_lookup(possible_keys, *a, **k)
+    rec._playback_recorded_interception = spy_lookup
+    res = []
+
+    def playback_function(_recording):
+        for ci in range(len(calls)):
+            del looked[:]
+            del live[:]
+            cur["ret"] = "LIVE"
+            try:
+                got = ["value", call(0, ci)]
+            except RecordingKeyError:
+                got = ["miss", "RecordingKeyError"]
+            except InputInterceptionKeyCreationError:
+                got = ["keyerr", "InputInterceptionKeyCreationError"]
+            res.append({"keys": looked[0] if looked else None, "got": got, "live": len(live)})
+    rec.play(saved[0], playback_function)
+    out["calls"] = res
+    return out
+
+
 def run_c06(case):
     out = key_for(case["alias"], case["cap"], case["static"], case["args"], case["kwargs"])
+    if case.get("lookup"):
+        try:
+            out["lookup"] = run_lookup(case)
+        except Exception as ex:
+            out["lookup"] = {"err": "%s: %s" % (type(ex).__name__, ex)}
     if case.get("via_decorator"):
         try:
             out.update(key_via_decorator(case))
